@@ -48,8 +48,15 @@ structure Mon where
   db      : St                         -- only rows / idx are used
   prev    : Dump
   excused : List (CKey × Excuse)
+  pend    : List Task := []            -- retries the cleaner owes: one per DEL that was seen to fail
 
-def Mon.init : Mon := { db := St.init, prev := [], excused := [] }
+def Mon.init : Mon := { db := St.init, prev := [], excused := [], pend := [] }
+
+/-- `n` ticks of the retry schedule (1 s, 5 s, 1 min, 5 min, 1 h): the tasks left, and the keys whose DEL ran
+successfully on the way. -/
+def tickPend (cf : Bool) : Nat → List Task → List CKey → List Task × List CKey
+  | 0, ts, acc => (ts, acc)
+  | n + 1, ts, acc => tickPend cf n (ts.filterMap (tickTask cf)) (if cf then acc else acc ++ dueKeys ts)
 
 def Mon.excuse (m : Mon) (k : CKey) : Option Excuse := (m.excused.find? (·.1 = k)).map (·.2)
 
@@ -128,7 +135,7 @@ def readClauses (report : Bool) (m : Mon) (k : CKey) (exc : List CKey) (dbExp : 
   | _ => (served, [])
 
 /-- the monitor: clauses evaluated on one observed line; returns new monitor state, violations, cover. -/
-def monStep (c : Cfg) (report : Bool) (m : Mon) (op : Op) (o : ObsLine) : Mon × List String × List String :=
+def monStep (c : Cfg) (report : Bool) (m : Mon) (op : Op) (n : Nat) (o : ObsLine) : Mon × List String × List String :=
   let cur := o.dump
   let persistent := (cur.filter (·.ttl.isNone)).map fun x => s!"ttl: persistent key {repr x.key}"
   let wr := writtenKeys m.prev cur
@@ -183,26 +190,41 @@ def monStep (c : Cfg) (report : Bool) (m : Mon) (op : Op) (o : ObsLine) : Mon ×
         | none => []
       (errClauses mask dbf ++ rc.1 ++ ttl ++ gap, rc.2, m.db)
     | .get _ mask => (errClauses mask false ++ nowrite "GetCache", [], m.db)
-    | .exec _ w mask dbf =>
+    | .exec ks w mask dbf =>
+      let left := if !dbf && !failAt mask 0 then ks.filter fun k => (cur.find k).isSome else []
       (nowrite "Exec" ++ (if dbf && o.res ≠ .dberr then ["dberr: Exec swallowed the database error"] else [])
-        ++ (if !dbf && o.res ≠ .ok then ["spurious: Exec failed"] else []) ++ (if mask = [] then [] else []),
+        ++ (if !dbf && o.res ≠ .ok then ["spurious: Exec failed"] else [])
+        ++ (if left ≠ [] then [s!"invalidate: still cached after an Exec whose DEL did not fail: {repr left}"] else []),
        [], if dbf then m.db else applyWrite m.db w)
-    | .del _ _ => (nowrite "DelCache", [], m.db)
+    | .del ks mask =>
+      let left := if !failAt mask 0 then ks.filter fun k => (cur.find k).isSome else []
+      (nowrite "DelCache"
+        ++ (if left ≠ [] then [s!"invalidate: still cached after a DelCache whose DEL did not fail: {repr left}"] else []),
+       [], m.db)
     | .set k _ e _ mask =>
       let ttl := wr.filterMap fun x => if x.key = k && ttlOk c x (match e with | some v => some v | none => some 0) false then none
                                        else some s!"ttl: entry {repr x.key} set with ttl {repr x.ttl}"
       (errClauses mask false ++ ttl, [], m.db)
     | .raw _ _ _ => ([], [], m.db)
     | .ft ms => ((if cur ≠ ageDump m.prev ms then ["ttl: entries did not age by the elapsed time"] else []), [], m.db)
-    | .tick _ => (nowrite "cleaner", [], m.db)
+    | .tick cf =>
+      let left := (tickPend cf n m.pend []).2.filter fun k => (cur.find k).isSome
+      (nowrite "cleaner"
+        ++ (if left ≠ [] then [s!"retry: a failed DEL was not retried on schedule, still cached: {repr left}"] else []),
+       [], m.db)
   let newDb := r.2.2
   let isExplicit (k : CKey) : Bool := match op with
     | .set k' _ _ _ _ => k = k'
     | .raw k' _ _ => k = k'
     | _ => false
-  let execKeys : Option (List CKey) := match op with
-    | .exec ks _ _ dbf => if dbf then none else some ks
+  let execKeys : Option (List CKey × Bool) := match op with
+    | .exec ks _ mask dbf => if dbf then none else some (ks, failAt mask 0)
     | _ => none
+  let pend' : List Task := match op with
+    | .exec ks _ mask dbf => if !dbf && ks ≠ [] && failAt mask 0 then m.pend ++ [⟨ks, 1, 1⟩] else m.pend
+    | .del ks mask => if ks ≠ [] && failAt mask 0 then m.pend ++ [⟨ks, 1, 1⟩] else m.pend
+    | .tick cf => (tickPend cf n m.pend []).1
+    | _ => m.pend
   let excused' : List (CKey × Excuse) := cur.filterMap fun e =>
     let isFt : Bool := match op with | .ft _ => true | _ => false
     if m.prev.find e.key ≠ some e ∧ !isFt then
@@ -211,9 +233,9 @@ def monStep (c : Cfg) (report : Bool) (m : Mon) (op : Op) (o : ObsLine) : Mon ×
       | some x => some (e.key, x)
       | none => match execKeys with
         | some ks => if dbView newDb e.key ≠ dbView m.db e.key then
-                       some (e.key, if e.key ∈ ks then .stale else .unkeyed) else none
+                       (if e.key ∈ ks.1 then (if ks.2 then some (e.key, .stale) else none) else some (e.key, .unkeyed)) else none
         | none => none
-  ({ db := { m.db with rows := newDb.rows, idx := newDb.idx }, prev := cur, excused := excused' },
+  ({ db := { m.db with rows := newDb.rows, idx := newDb.idx }, prev := cur, excused := excused', pend := pend' },
    persistent ++ r.1, r.2.1)
 
 end GoZero.C06.Spec
